@@ -39,3 +39,6 @@ BREAKING.append(('cluster file created as a hard link', 'phylib/io/model.py', " 
 BREAKING.append(('cluster file created as a symlink', 'phylib/io/model.py', "            shutil.copy(tmp_path, path)", "            Path(path).symlink_to(tmp_path)", ['C04.F1']))
 BREAKING.append(('scrub through nan_to_num (inf -> huge finite)', 'phylib/io/model.py', "                out[errors] = 0\n", "                out = np.nan_to_num(out)\n", ['C04.D1']))
 EQUIVALENT.append(('scrub through nan_to_num with explicit zeros', 'phylib/io/model.py', "                out[errors] = 0\n", "                out = np.nan_to_num(out, nan=0, posinf=0, neginf=0)\n"))
+BREAKING.append(('unused templates detected on the first channel only', M, "            empty_templates = np.all(np.all(np.isnan(data), axis=1), axis=1)", "            empty_templates = np.all(np.isnan(data[:, :, 0]), axis=1)", ['C04.D1']))
+BREAKING.append(('templates with ANY NaN are zeroed', M, "            empty_templates = np.all(np.all(np.isnan(data), axis=1), axis=1)", "            empty_templates = np.any(np.any(np.isnan(data), axis=1), axis=1)", ['C04.D1']))
+EQUIVALENT.append(('unused templates via one reduction over both axes', M, "            empty_templates = np.all(np.all(np.isnan(data), axis=1), axis=1)", "            empty_templates = np.isnan(data).all(axis=(1, 2))"))
